@@ -181,19 +181,21 @@ def op_setp(d, st, actor):
     if not objs:
         return
     kind = st["vkind"]
+    o = objs[st["idx"] % len(objs)]
+    # one value kind per (class, parameter) for the whole run: mixed kinds are C05's subject
+    have = d.kinds.setdefault((type(o).__name__, st["param"]), kind)
+    base = lambda k: k[4:] if k.startswith("all-") else k  # noqa: E731
+    if kind != "none" and base(have) != base(kind):
+        kind = ("all-" if kind.startswith("all-") else "") + base(have)
+        if base(have) in ("str", "bool", "none"):
+            kind = "all-" + base(have) if base(have) != "none" else st["vkind"]
+            d.kinds[(type(o).__name__, st["param"])] = kind
     if kind.startswith("all-"):
         # every object of that class gets a value of the same shape
-        cls = type(objs[st["idx"] % len(objs)])
-        for j, o in enumerate(x for x in objs if type(x) is cls):
-            o.p[st["param"]] = _value(kind, st["u"], j)
+        cls = type(o)
+        for j, x in enumerate(y for y in objs if type(y) is cls):
+            x.p[st["param"]] = _value(kind, st["u"], j)
     else:
-        o = objs[st["idx"] % len(objs)]
-        cur_kinds = d.kinds.setdefault((type(o).__name__, st["param"]), kind)
-        if cur_kinds != kind and kind != "none":
-            # keep one value kind per (class, parameter): mixed kinds are C05's subject
-            kind = cur_kinds
-        if kind.startswith("all-"):
-            kind = kind[4:]
         o.p[st["param"]] = _value(kind, st["u"], 0)
     d.dirty = True
 
@@ -232,7 +234,10 @@ def op_dim(d, st, actor):
 
 def op_height(d, st, actor):
     d.mass_dirty = True
-    blks = c06.objects_at_level(actor.o.r, "block")
+    core = actor.o.r.core
+    # blocks designated stationary keep their height: exchanging stationary blocks of different
+    # heights is what swapAssemblies itself warns against
+    blks = [b for b in c06.objects_at_level(actor.o.r, "block") if not any(b.hasFlags(f) for f in core.stationaryBlockFlagsList)]
     b = blks[st["idx"] % len(blks)]
     b.setHeight(b.getHeight() * st["factor"])
     d.dirty = True
